@@ -1,7 +1,7 @@
 """Sidecar contracts for checkpoint_schedules/multistage.py (F11-F16)."""
 from pyvc.contracts import Contract, ClassSpec, LoopSpec
 
-STREAM = ("C01", "C02", "C03", "C04", "C08", "C09", "C12", "C14", "C17", "C18")
+STREAM = ("C01", "C02", "C03", "C04", "C05", "C08", "C09", "C12", "C14", "C17", "C18")
 VALID_TRAJ = "(trajectory == 'maximum' or trajectory == 'revolve')"
 
 
@@ -151,6 +151,25 @@ def register(reg):
         params=[("self", "obj")], is_property=True, pure=True, returns="bool",
         ensures=[("flag", "result == self._exhausted")], frame=[], props=("C09", "C15")))
 
+    # C05 potential: WADV(n, u, trajectory) = forward steps of the recurrence induced by the real
+    # n_advance: T(1, u) = 1; T(n, u) = j + T(n - j, u - 1) + T(j, u) with j = n_advance(n, u).  The
+    # step equation is only ever used through explicit instances (hints): its universal closure would
+    # feed the solver's instantiation loop.
+    reg.spec_function("WADV", ["int", "int", "int"], "int")
+    reg.spec_axioms("WADV", [("WADV.single_step", "forall_int(lambda u, t: WADV(1, u, t) == 1)")])
+    reg.axiom_schema("WADV", "WADV.step", ["n", "u", "t"], [],
+                     "implies(n >= 2 and u >= 1, WADV(n, u, t) == n_advance(n, u, t) + "
+                     "WADV(n - n_advance(n, u, t), u - 1, t) + WADV(n_advance(n, u, t), u, t))", closed=False)
+    S_ = "(self._snapshots_in_ram + self._snapshots_on_disk)"
+    K_ = "len(snapshots)"
+    T_ = "self._trajectory"
+    TOT = "WADV(self._max_n, %s, %s)" % (S_, T_)
+    TOP = "snapshots[%s - 1]" % K_
+    POT_COUPLING = [
+        ("potential_stack", "len(g.P) == %s and implies(%s >= 1, g.P[0] == 0) and "
+                            "forall(1, %s, lambda i: g.P[i] == g.P[i - 1] + "
+                            "WADV(snapshots[i] - snapshots[i - 1], %s - i + 1, %s))" % (K_, K_, K_, S_, T_))]
+
     # F14 ---------------------------------------------------------------- _iterator
     COUPLING = [
         ("coupling", "len(g.cs) == len(snapshots) and len(g.cov) == len(snapshots) and "
@@ -172,7 +191,15 @@ def register(reg):
         hooks={"module": "ghost", "init": "ms_init", "emit_Forward": "ms_forward",
                "emit_EndForward": "ms_end_forward", "emit_Reverse": "ms_reverse", "emit_Copy": "ms_copy",
                "emit_Move": "ms_move", "emit_EndReverse": "ms_end_reverse", "stop": "ms_stop",
-               "ghost_types": {"cs": ("list", ["int"]), "cov": ("list", ["int"])}},
+               "ghost_types": {"cs": ("list", ["int"]), "cov": ("list", ["int"]), "P": ("list", ["int"])}},
+        # the step equation of the recurrence at the segment each n_advance call splits
+        hints={"n1[0]": [("use", "WADV.step", ["self._max_n - n0", "n_snapshots", "self._trajectory"])],
+               "n1[1]": [("use", "WADV.step", ["self._max_n - self._r - n0", "n_snapshots", "self._trajectory"])],
+               "n1[2]": [("use", "WADV.step", ["self._max_n - self._r - n0", "n_snapshots", "self._trajectory"]),
+                         ("segment_splits",
+                          "WADV(g.N - g.adj - n0, %(S)s - %(K)s, %(T)s) == (n1 - n0) + "
+                          "WADV(g.N - g.adj - n1, %(S)s - %(K)s - 1, %(T)s) + WADV(n1 - n0, %(S)s - %(K)s, %(T)s)"
+                          % {"S": S_, "K": K_, "T": T_})]},
         loops=[
             LoopSpec("self._n < self._max_n - 1", OFFLINE + COUPLING + [
                 ("phase", "g.phase == 0 and g.adj == 0 and self._r == 0 and g.wlo >= g.whi and not g.work_ics"),
@@ -180,7 +207,11 @@ def register(reg):
                 ("stack_below_forward", "implies(len(snapshots) == 0, self._n == 0) and "
                                         "implies(len(snapshots) > 0, snapshots[len(snapshots) - 1] < self._n and "
                                         "g.cov[len(snapshots) - 1] == self._n)"),
-                ("unit_left_or_at_end", "len(snapshots) < len(self._storage) or self._n >= self._max_n - 1")],
+                ("unit_left_or_at_end", "len(snapshots) < len(self._storage) or self._n >= self._max_n - 1")]
+                + POT_COUPLING + [
+                ("potential", "g.taken + ((g.P[%(K)s - 1] + WADV(self._n - %(TOP)s, %(S)s - %(K)s + 1, %(T)s)) "
+                              "if %(K)s >= 1 else 0) + WADV(self._max_n - self._n, %(S)s - %(K)s, %(T)s) == %(TOT)s"
+                 % {"K": K_, "TOP": TOP, "S": S_, "T": T_, "TOT": TOT})],
                 decreases="self._max_n - 1 - self._n"),
             LoopSpec("self._r < self._max_n", OFFLINE + COUPLING + [
                 ("phase", "g.phase == 1 and g.wlo >= g.whi and not g.work_ics"),
@@ -189,7 +220,11 @@ def register(reg):
                 ("stack_vs_adjoint",
                  "(g.N - g.adj == 0 and len(snapshots) == 0) or "
                  "(g.N - g.adj >= 1 and len(snapshots) >= 1 and "
-                 "snapshots[len(snapshots) - 1] <= g.N - g.adj - 1 and g.cov[len(snapshots) - 1] >= g.N - g.adj)")],
+                 "snapshots[len(snapshots) - 1] <= g.N - g.adj - 1 and g.cov[len(snapshots) - 1] >= g.N - g.adj)")]
+                + POT_COUPLING + [
+                ("potential", "(%(K)s == 0 and g.taken == %(TOT)s) or (%(K)s >= 1 and g.taken + g.P[%(K)s - 1] + "
+                              "WADV(g.N - g.adj - %(TOP)s, %(S)s - %(K)s + 1, %(T)s) == %(TOT)s)"
+                 % {"K": K_, "TOP": TOP, "S": S_, "T": T_, "TOT": TOT})],
                 decreases="self._max_n - self._r"),
             LoopSpec("self._n < self._max_n - self._r - 1", OFFLINE + COUPLING + [
                 ("phase", "g.phase == 1 and g.wlo >= g.whi and not g.work_ics"),
@@ -197,7 +232,11 @@ def register(reg):
                 ("position", "g.fwd_def and g.fwd == self._n and self._n <= g.N - g.adj - 1"),
                 ("stack_below_forward", "len(snapshots) >= 1 and snapshots[len(snapshots) - 1] < self._n and "
                                         "g.cov[len(snapshots) - 1] >= self._n"),
-                ("unit_left_or_at_end", "len(snapshots) < len(self._storage) or self._n == g.N - g.adj - 1")],
+                ("unit_left_or_at_end", "len(snapshots) < len(self._storage) or self._n == g.N - g.adj - 1")]
+                + POT_COUPLING + [
+                ("potential", "g.taken + g.P[%(K)s - 1] + WADV(self._n - %(TOP)s, %(S)s - %(K)s + 1, %(T)s) + "
+                              "WADV(g.N - g.adj - self._n, %(S)s - %(K)s, %(T)s) == %(TOT)s"
+                 % {"K": K_, "TOP": TOP, "S": S_, "T": T_, "TOT": TOT})],
                 decreases="self._max_n - self._r - 1 - self._n"),
         ]))
 
